@@ -5,7 +5,7 @@ DD = dict(unit="hfiledd_u.c", file="hdf/src/hfiledd.c", objbits=10, cex_unwind=1
           trusted=["HP-level ghost disk (stubs/h4v_hp.h; executable form of the HPseek/HP_read/HP_write/HPgetdiskblock contracts proved in hfile_u.c)",
                    "HAinit_group/tbbtdmake stubs (units/hfiledd_u.c)", "HEpush/HEreport/HEclear (stubs/h4v_err.h)"])
 ob("HTIupdate_dd", ["C02", "C16", "C17", "C12"], entry="h_HTIupdate_dd", enforce="HTIupdate_dd", **DD)
-ob("HTInew_dd_block", ["C02", "C16", "C17"], entry="h_HTInew_dd_block", enforce="HTInew_dd_block", mode="bounded",
+ob("HTInew_dd_block", ["C02", "C12", "C16", "C17"], entry="h_HTInew_dd_block", enforce="HTInew_dd_block", mode="bounded",
    bound="ndds == 4 DDs per block (HDmemfill/memcpy loops unwound); 1 or 2 existing blocks; all offsets symbolic", unwind=8,
    defines=["H4V_MAXNDDS=4"], **DD)
 SYNC = dict(mode="bounded", unwind=8, timeout=900)
@@ -17,7 +17,7 @@ for kk, kh, tier in [(0, 0, "quick"), (5, 2, "quick"), (11, 5, "quick"), (1, 1, 
 ob("HTPsync_order", ["C17"], entry="h_HTPsync_order", enforce=None, bound="<= 3 DD blocks of ndds == 4; offsets and DD contents symbolic",
    defines=["H4V_MAXNDDS=4", "H4V_MAXNB=3"], **SYNC, **DD)
 for n, tier in [(0, "quick"), (1, "quick"), (5, "thorough"), (4, "thorough")]:
-    ob(f"HTPinit_n{n}", ["C02", "C16"], entry="h_HTPinit", enforce="HTPinit", mode="bounded", tier=tier,
+    ob(f"HTPinit_n{n}", ["C02", "C12", "C16"], entry="h_HTPinit", enforce="HTPinit", mode="bounded", tier=tier,
        bound=f"requested ndds == {n} (one constant per run; 0 -> default 16, 1 -> minimum 4)", unwind=20, defines=[f"H4V_NDDS_IN={n}"], **DD)
 
 prop("C02",
